@@ -48,22 +48,36 @@ class Harness:
         self.model = None
 
     def run(self, lines):
-        outs = self.h.run(lines)
+        # scenarios that may kill squid run last, one at a time (every casualty of a crash would have to be replayed)
+        risky = [i for i, l in enumerate(lines) if may_be_fatal(l)]
+        safe = [i for i in range(len(lines)) if i not in set(risky)]
+        outs = [None] * len(lines)
+        for i, o in zip(safe, self.h.run([lines[i] for i in safe])):
+            outs[i] = o
         for attempt in range(2):
-            bad = [i for i, (l, o) in enumerate(zip(lines, outs))
-                   if (oracle(l, o) and not classify(l, o, oracle(l, o))) or o.startswith("abort:io") or suspicious(l, o)]
+            bad = [i for i in safe
+                   if (oracle(lines[i], outs[i]) and not classify(lines[i], outs[i], oracle(lines[i], outs[i]))) or outs[i].startswith("abort:io") or suspicious(lines[i], outs[i])]
             if not bad or len(bad) > 40:
-                break
-            if not self.h.squid.alive():
                 break
             redo = self.h.run([lines[i] for i in bad])
             for i, o in zip(bad, redo):
                 if not (oracle(lines[i], o) or suspicious(lines[i], o)) or attempt == 1:
                     outs[i] = o
+        for i in risky:
+            outs[i] = self.h.run([lines[i]])[0]
+        self.crashes = self.h.crashes
         return outs
 
     def close(self):
         self.h.close()
+
+
+def may_be_fatal(line):
+    d = parse(line)
+    if d is None:
+        return False
+    return d["act"] in ("206x", "200x") or (d["act"] in ("204", "100") and d["cut"] == "-" and has_body(d) and d["vl"] >= CAP and not allow204_outside(d)
+                                            and preview_ad(d) is None)
 
 
 def build(stage):
